@@ -329,23 +329,26 @@ func cmdCheck(args []string) int {
 		c.Deadline = time.Now().Add(time.Duration(budget) * time.Second)
 		rep := sx.Explore(prog, c)
 		r := hres{plan: h, rep: rep}
-		// classify findings
-		seen := map[string]bool{}
+		// classify findings; keep up to 4 alternative models per distinct finding
+		idx := map[string]int{}
 		for _, f := range rep.Findings {
 			key := f.Kind + "|" + f.Msg
-			if seen[key] {
+			if i, ok := idx[key]; ok {
+				if i >= 0 && len(r.viol[i].Alternatives) < 3 {
+					r.viol[i].Alternatives = append(r.viol[i].Alternatives, f)
+				}
 				continue
 			}
-			seen[key] = true
 			if kf := matchKnown(known, *prop, h.Name, f.Msg); kf != nil {
+				idx[key] = -1
 				line := fmt.Sprintf("KNOWN-FINDING: property=%s %s [harness %s: %s]", *prop, kf.What, h.Name, f.Msg)
 				r.kf = append(r.kf, line)
 				continue
 			}
-			v := violation{Harness: h.Name, Finding: f}
-			r.viol = append(r.viol, v)
+			idx[key] = len(r.viol)
+			r.viol = append(r.viol, violation{Harness: h.Name, Finding: f})
 		}
-		// replay (at most 3 distinct violations per harness)
+		// replay (at most 3 distinct violations per harness; up to 4 models each)
 		for i := range r.viol {
 			if i >= 3 {
 				r.viol[i].ReplayStatus = "not replayed (more than 3 distinct violations in this harness)"
@@ -353,6 +356,17 @@ func cmdCheck(args []string) int {
 				continue
 			}
 			replayOne(&r.viol[i], *prop, h, params, files, workDir)
+			for k := 0; !r.viol[i].Reproduced && k < len(r.viol[i].Alternatives); k++ {
+				alt := violation{Harness: h.Name, Finding: r.viol[i].Alternatives[k]}
+				replayOne(&alt, *prop, h, params, files, workDir)
+				if alt.Reproduced {
+					alt.ReplayStatus += fmt.Sprintf(" (model %d of the same finding; earlier models did not reproduce)", k+2)
+					alts := r.viol[i].Alternatives
+					r.viol[i] = alt
+					r.viol[i].Alternatives = alts
+				}
+			}
+			r.viol[i].Alternatives = nil
 		}
 		for _, v := range r.viol {
 			switch {
@@ -531,6 +545,7 @@ type violation struct {
 	Dir          string     `json:"replay_dir"`
 	Reproduced   bool       `json:"reproduced"`
 	ReplayStatus string     `json:"replay_status"`
+	Alternatives []sx.Finding `json:"-"`
 }
 
 var failRe = regexp.MustCompile(`ZZ-ASSERT-FAILED|ZZ-PANIC|ZZ-HANG|panic:|fatal error:`)
